@@ -83,6 +83,8 @@ def c18(run):
     r_ownraw.run(run, P)
     from rules import r_dangfield
     r_dangfield.run(run, P)
+    from rules import r_misc12
+    r_misc12.run_linked_destroyed(run, P)
     from rules import r_nullbelief
     r_nullbelief.run(run, P)
     run.min_instances('R-NULL-BELIEF', 100)
@@ -197,6 +199,8 @@ def c03(run):
     r_parsegate.run(run, P)
     r_parsegate.run_outputs(run, P)
     r_parsegate.run_verdict(run, P)
+    from rules import r_misc12
+    r_misc12.run_value_fits_rest(run, P)
     run.min_instances('R-WIDTH', 4)
     run.min_instances('R-PARSE-GATE', 15)
     run.assumptions = ASSUME_COMMON + ["agreement with an independent decoder on all inputs is NOT decided; the per-option length limits are compared with the RFC tables frozen in rules/r_codec.py (26 option numbers)"]
@@ -253,6 +257,8 @@ def c05(run):
     r_stream.run_phase_local(run, P)
     r_stream.run_empty_unit(run, P)
     r_stream.run_buffered_examined(run, P)
+    from rules import r_misc12
+    r_misc12.run_terminator_last(run, P)
     r_stream.run_buffer_param(run, P)
     from rules import r_width as _rw5
     _rw5.run_h(run, P)                   # the declared length of a stream message is computed without wrapping before it is compared with the limits
@@ -319,6 +325,8 @@ def c15(run):
     run.min_instances('R-REPLAY-OWN', 8)
     run.min_instances('R-REPLAY-RB', 5)
     run.assumptions = ASSUME_COMMON + ["acceptance over histories and the numeric side of the sender-sequence watermark (ssn_freq >= 1, start-up rounding) are NOT decided"]
+    from rules import r_width as _rw
+    _rw.run_d(run, P, units=OSCORE_UNITS, widths=(8, 16, 32), min_src=64)    # the Partial IV / nonce is built from all 64 bits of the sender sequence number
     return run.finish(
         "Anti-replay state discipline: shift counts derived from sequence numbers / CBOR are proven below the operand width (R-RANGE); the "
         "replay fields are written only by the window functions and the constructor (R-REPLAY-OWN); everything the validation modifies is "
@@ -513,6 +521,8 @@ def c14(run):
     from rules import r_oscrole
     r_oscrole.run(run, P)
     r_oscrole.run_assoc_source(run, P)
+    from rules import r_misc12
+    r_misc12.run_weak_lookup(run, P)
     r_oscsplit.run_flag_reach(run, P)
     r_oscsplit.run_match_acc(run, P)
     r_oscsplit.run_outer_discard(run, P)
@@ -568,6 +578,8 @@ def c02(run):
     r_stream.run_phase_local(run, P)
     r_stream.run_empty_unit(run, P)
     r_stream.run_buffered_examined(run, P)
+    from rules import r_misc12
+    r_misc12.run_terminator_last(run, P)
     r_stream.run_buffer_param(run, P)
     from rules import r_width as _rw5
     _rw5.run_h(run, P)                   # the declared length of a stream message is computed without wrapping before it is compared with the limits
@@ -623,6 +635,8 @@ def c07(run):
     r_ownnode.run_queue_key(run, P)      # an ACK / RST / duplicate retires only the request of its own session and message id: no other request loses its retransmission
     from rules import r_midzero
     r_midzero.run(run, P)                # the request that happens to get message id 0 is queued, retransmitted and concluded like any other ("never neither")
+    from rules import r_cnt
+    r_cnt.run_dequeue(run, P)            # a request retired by ACK / RST gives its NSTART slot back: otherwise every later request is parked for ever ("never neither")
     run.min_instances('R-RESP', 4)
     run.assumptions = ASSUME_COMMON + ["exactly-once conclusion over all patterns of loss / duplication / delay, the NACK side (coap_retransmit give-up, decided under C06) and the "
                                        "server's separate-response machinery are NOT decided; returns of handle_response() that never reach the handler (token-size / Q-Block "
@@ -647,6 +661,8 @@ def c11(run):
     r_observe.run_delete_all(run, P)
     r_observe.run_fail_count(run, P)
     r_observe.run_counter_owner(run, P)
+    from rules import r_misc12
+    run.require_count(r_misc12.run_request_flag(run, P) >= 1 or run.cfg != 'base', 'R-LOST-STORE (request flag): no test-and-clear of a request flag found (expected observe_pending)')
     from rules import r_pairargs
     r_pairargs.run_token_identity(run, P)
     from rules import r_finderkey
